@@ -50,6 +50,7 @@ type session struct {
 	faulted bool                // a crash / error fault fired in this session
 	vaSeen  map[int][]string    // validator id -> "owner|op/key,op/key,…" of every ValidatorAdded delivered so far
 	traces  map[uint64][]string // block number -> real write trace of the successfully processed block
+	counted map[uint64]bool     // block numbers whose add attempts were counted (a block counts once, however often it is delivered)
 	base    map[int]int         // owner -> nonce expected next when the case started / the recipient was seeded
 	adds    map[int]int         // owner -> parsed ValidatorAdded events processed since then
 }
@@ -70,7 +71,7 @@ func openDisk(dir string) basedb.Database {
 }
 
 func newSession(run *hx.Run, emit bool, disk bool, extra string) *session {
-	s := &session{run: run, emit: emit, base: map[int]int{}, adds: map[int]int{}, vaSeen: map[int][]string{}, traces: map[uint64][]string{}}
+	s := &session{run: run, emit: emit, base: map[int]int{}, adds: map[int]int{}, vaSeen: map[int][]string{}, traces: map[uint64][]string{}, counted: map[uint64]bool{}}
 	if disk {
 		d, err := os.MkdirTemp("", "verif-registry-")
 		must(err)
@@ -240,9 +241,12 @@ func (s *session) block(num uint64, evs []*event) blockResult {
 		s.traces[num] = append([]string{}, s.p.ctl.trace...)
 		s.okCnt++
 		s.checkMemDBViews(fmt.Sprintf("after block %d", num), mv, dbv)
-		for _, e := range evs {
-			if e.Kind == "VA" {
-				s.adds[e.Owner]++
+		if !s.counted[num] {
+			s.counted[num] = true
+			for _, e := range evs {
+				if e.Kind == "VA" {
+					s.adds[e.Owner]++
+				}
 			}
 		}
 		s.checkNonces(fmt.Sprintf("after block %d", num), dbv)
@@ -250,6 +254,7 @@ func (s *session) block(num uint64, evs []*event) blockResult {
 	}
 	s.run.Tag("block:" + st)
 	s.run.Seen(st + ":" + res.out + ":" + res.trace)
+	s.checkMarkerRule(num, len(evs), before, st)
 	return res
 }
 
@@ -280,10 +285,13 @@ func (s *session) fault(kind string, atReal, atModel, kmAt int, num uint64, evs 
 	if !fired && res.status == "ok" { // the fault index lies beyond the block's writes: an ordinary processed block
 		for _, e := range evs {
 			if e.Kind == "VA" {
-				s.adds[e.Owner]++
+				if !s.counted[num] {
+					s.adds[e.Owner]++
+				}
 				s.vaSeen[e.Val] = append(s.vaSeen[e.Val], pairing(e))
 			}
 		}
+		s.counted[num] = true
 	}
 	if kind == "retry" {
 		s.retry = true
@@ -428,6 +436,45 @@ func (s *session) checkAdds(num uint64, evs []*event, pre addPre) {
 	}
 }
 
+// oracle "a block that is not newer than the last processed block is refused; the marker never goes back"
+func (s *session) checkMarkerRule(num uint64, nEvents int, before, status string) {
+	if s.retry {
+		return
+	}
+	prop := "C12"
+	if modeC11 {
+		prop = "C11"
+	}
+	mb := uint64(0)
+	if before != "-" {
+		v, err := strconv.ParseUint(before, 10, 64)
+		must(err)
+		mb = v
+	}
+	after := markerOf(dbView(s.raw))
+	ma := uint64(0)
+	if after != "-" {
+		v, err := strconv.ParseUint(after, 10, 64)
+		must(err)
+		ma = v
+	}
+	kind := "inferior"
+	if nEvents == 0 {
+		kind = "empty-inferior"
+		s.run.Tag("block:empty")
+	}
+	switch {
+	case num <= mb && status != "refused" && status != "panic":
+		s.run.Tag("block:" + kind + "-accepted")
+		s.run.Violate(prop+"/inferior-block-accepted", fmt.Sprintf("block %d (%d events) is not newer than the last processed block %s but was not refused (%s); marker now %s", num, nEvents, before, status, after), s.lines...)
+	case ma < mb || (before != "-" && after == "-"):
+		s.run.Violate(prop+"/marker-went-back", fmt.Sprintf("block %d (%s): marker %s -> %s", num, status, before, after), s.lines...)
+	}
+	if num <= mb {
+		s.run.Tag("block:" + kind + "-refused-rule-checked")
+	}
+}
+
 // oracle "the nonce counts every add attempt exactly once" (mod 2^16), evaluated on the stored recipients
 func (s *session) checkNonces(when, dbv string) {
 	if s.retry || (s.faulted && !modeC11) { // in C12 mode the final-state oracle judges the nonces as well
@@ -514,7 +561,12 @@ type planStep struct {
 	num uint64
 	evs []*event
 	blk bool
+	dup bool // an inferior empty block or a re-delivery of an already processed block: must be refused
 }
+
+// planNoRestartNoise: adversarial histories (operator id 0 with the own key …) make a plain restart change the own
+// operator id (known findings); restarts drawn per batching would turn that into a batching difference
+var planNoRestartNoise bool
 
 func makePlan(r *hx.Rng, items []item, cuts []bool, lastNum uint64) []planStep {
 	var plan []planStep
@@ -534,15 +586,44 @@ func makePlan(r *hx.Rng, items []item, cuts []bool, lastNum uint64) []planStep {
 		}
 		num += 1 + uint64(r.Intn(3))
 		plan = append(plan, planStep{blk: true, num: num, evs: evs})
-		if r.Chance(4) { // an empty block
+		if r.Chance(8) { // an empty (progress-only) block above the marker
 			num += 1 + uint64(r.Intn(2))
 			plan = append(plan, planStep{blk: true, num: num})
+		}
+		if j < len(items) && r.Chance(12) {
+			// an EMPTY block that is not newer than the marker (equal / just below / far below), then — maybe after a
+			// restart — blocks above it that were processed already are delivered again: all of them must be refused
+			low := num
+			switch r.Intn(3) {
+			case 1:
+				if low > 0 {
+					low--
+				}
+			case 2:
+				low = uint64(r.Intn(int(num) + 1))
+			}
+			plan = append(plan, planStep{blk: true, num: low, dup: true})
+			if r.Chance(40) && !planNoRestartNoise {
+				plan = append(plan, planStep{it: &item{op: "restart"}})
+			}
+			if r.Chance(70) {
+				for k := len(plan) - 1; k >= 0; k-- { // the most recent block with events
+					if plan[k].blk && !plan[k].dup && len(plan[k].evs) > 0 {
+						var again []*event
+						for _, e := range plan[k].evs {
+							again = append(again, e.clone())
+						}
+						plan = append(plan, planStep{blk: true, num: plan[k].num, evs: again, dup: true})
+						break
+					}
+				}
+			}
 		}
 		i = j
 	}
 	// make the last block carry the agreed last number (both batchings of a pair end on the same marker)
 	for k := len(plan) - 1; k >= 0; k-- {
-		if plan[k].blk {
+		if plan[k].blk && !plan[k].dup {
 			if lastNum > plan[k].num {
 				plan[k].num = lastNum
 			}
@@ -554,7 +635,7 @@ func makePlan(r *hx.Rng, items []item, cuts []bool, lastNum uint64) []planStep {
 
 func lastBlockNum(plan []planStep) uint64 {
 	for k := len(plan) - 1; k >= 0; k-- {
-		if plan[k].blk {
+		if plan[k].blk && !plan[k].dup {
 			return plan[k].num
 		}
 	}
@@ -579,7 +660,11 @@ func runPlan(s *session, r *hx.Rng, plan []planStep, inferiorProb int) (panicked
 			return true
 		}
 		if r != nil && r.Chance(inferiorProb) && st.num > 0 { // a block that is not newer than the marker
-			s.block(st.num-uint64(r.Intn(2)), []*event{{Kind: "FR", Owner: 1, Fee: 2}})
+			var evs []*event
+			if r.Bool() {
+				evs = []*event{{Kind: "FR", Owner: 1, Fee: 2}}
+			}
+			s.block(st.num-uint64(r.Intn(2)), evs)
 			s.run.Tag("inferior-block-attempt")
 		}
 	}
@@ -605,6 +690,8 @@ func caseC11(run *hx.Run, r *hx.Rng, caseNo int) {
 	}
 	items := genHistory(r, cfg, run, n)
 	pair := fmt.Sprintf("pair=%d", caseNo)
+	planNoRestartNoise = cfg.adversarial
+	defer func() { planNoRestartNoise = false }()
 	// first batching
 	planA := makePlan(r, items, genCuts(r, items, r.Pick(15, 35, 60, 100)), 0)
 	// second batching of the same events, drawn independently; same last block number
@@ -616,7 +703,7 @@ func caseC11(run *hx.Run, r *hx.Rng, caseNo int) {
 	last += uint64(r.Intn(2))
 	for _, pl := range [][]planStep{planA, planB} {
 		for k := len(pl) - 1; k >= 0; k-- {
-			if pl[k].blk {
+			if pl[k].blk && !pl[k].dup {
 				pl[k].num = last
 				break
 			}
